@@ -261,6 +261,15 @@ def run_cli(ctx):
 
 def replay(ctx, rep):
     c = rep.get("case")
+    if rep.get("build"):
+        b = rep["build"]
+        r = cli_case(ctx, 0, 1, {"graph": (b["n"], b["edges"], b["family"]), "workers": b["workers"], "mode": b["mode"], "nocache": b["nocache"]})
+        print("re-run of the CLI build:", {k: v for k, v in r.items() if k != "out"})
+        return 0
+    if rep.get("steps") is not None and c:
+        bad, info = W.run_steps(ctx, [dict(c)])
+        print("onComplete step records disagree with the model:" if bad else "step records agree with the model", [W.describe_step_diff(*b) for b in bad])
+        return 0
     if not c:
         print("nothing to replay in this file (see 'kind')")
         return 0
